@@ -12,6 +12,7 @@ package tbtc
 // do not touch outpoints, outputs or amounts).
 
 import (
+	"sync/atomic"
 	"bytes"
 	"fmt"
 	"testing"
@@ -254,4 +255,57 @@ func TestVerif_C26_Conservation(t *testing.T) {
 			r.Violation("feedist:uneven", fmt.Sprintf("shares range from %d to %d over %d requests", lo, hi, count), desc, nil)
 		}
 	})
+}
+
+// TestVerif_C26_AssemblyUnderChainFaults: the same scenarios assembled while
+// the Bitcoin client fails one of the previous-transaction lookups. Giving up
+// with an error is fine; a transaction that comes out anyway must still spend
+// exactly the intended UTXOs and conserve value.
+func TestVerif_C26_AssemblyUnderChainFaults(t *testing.T) {
+	r := verifkit.Start(t, "C26", "assembly-faults")
+	defer r.Finish()
+	r.SetRule("the conservation scenarios assembled by the production functions through a Bitcoin chain handle whose k-th GetTransaction call fails (k = 1 .. number of intended inputs + 1, every k for every scenario). Outcome error: accepted. Outcome transaction: must pass the conservation oracle (intended inputs in order, sum of previous outputs - outputs == fee, intended output scripts). Non-trivial: the scripted failure was actually hit.")
+	n := r.N(3000, 40000)
+	var hit, errored, survived int64
+	verifkit.Parallel(n, 0, func(i int) {
+		rng := r.SubRand("tx", i)
+		s := c26kitScenarioFor(i, rng)
+		for k := 1; k <= len(s.Inputs)+1; k++ {
+			fc := &c26kitFaultChain{Chain: s.Chain, FailAt: k}
+			desc := fmt.Sprintf("#%d %s | GetTransaction call %d fails", i, s.Desc(), k)
+			var tx *bitcoin.Transaction
+			var err error
+			if r.Guard(s.Kind+":faults:", desc, func() {
+				var b *bitcoin.TransactionBuilder
+				b, err = s.BuildOn(fc)
+				if err != nil {
+					return
+				}
+				tx, _, _, err = c26kitSignAll(b, s.Wallet, rng, func(int) c26kitSigMode { return c26kitSigMode{LongR: -1} })
+			}) {
+				continue
+			}
+			r.Case(desc, fc.Failed > 0)
+			if fc.Failed > 0 {
+				atomic.AddInt64(&hit, 1)
+			}
+			if err != nil || tx == nil {
+				atomic.AddInt64(&errored, 1)
+				continue
+			}
+			if fc.Failed > 0 {
+				atomic.AddInt64(&survived, 1)
+			}
+			for _, p := range c26Check(s, tx) {
+				vals := []int64{}
+				for _, o := range tx.Outputs {
+					vals = append(vals, o.Value)
+				}
+				r.Violation("faults:"+p.fp, "after a failed previous-transaction lookup the assembly returned a transaction: "+p.what, desc, map[string]interface{}{"output_values": vals, "inputs_spent": len(tx.Inputs), "inputs_intended": len(s.Inputs)})
+			}
+		}
+	})
+	r.Count("assemblies_with_the_failure_hit", hit)
+	r.Count("assemblies_that_gave_up_with_error", errored)
+	r.Count("assemblies_that_returned_a_transaction_despite_the_failure", survived)
 }
